@@ -40,7 +40,9 @@ from harness.props import c06_text as T
 # generator
 # --------------------------------------------------------------------------
 def gen_case(rng, nvariants=3):
-    base = T.gen_case(rng)
+    base = T.gen_case(rng, fortran=False)
+    for f in base["files"]:
+        f.pop("eol", None)  # files are written as the universal-newline text here
     names = sorted({d.split("=")[0] for p in base["plats"] for e in p["entries"] for d in e["defs"]}) or ["A", "B"]
     for p in base["plats"]:
         # more files with two or three compile commands whose -D lists differ: sensitive to entry order / "first one wins"
